@@ -26,6 +26,19 @@ pub struct UniformNet {
     pub mutate_secured_permille: u32,
     /// Replace a datagram by a copy of an earlier one of the same sender (replay / substitution)
     pub replay_permille: u32,
+    /// Flip one bit in the confirmation value of every PASE Pake3 message sent by this node
+    pub corrupt_pake3_from: Option<usize>,
+}
+
+thread_local! {
+    /// (from, to, step) in microseconds: probe the devices this often inside the interval
+    static FINE_PROBE: Cell<Option<(u64, u64, u64)>> = const { Cell::new(None) };
+}
+
+/// Ask the next `drive_full_with` on this thread to call its step hook every `step` microseconds
+/// between `from` and `to` (it is every 100 ms otherwise)
+pub fn set_fine_probe(v: Option<(u64, u64, u64)>) {
+    FINE_PROBE.with(|c| c.set(v));
 }
 
 pub struct UniformAdversary {
@@ -50,6 +63,25 @@ impl Policy for UniformAdversary {
             return vec![Fate::deliver(lat)];
         }
         let secured = _rec.bytes.len() >= 4 && (_rec.bytes[1] != 0 || _rec.bytes[2] != 0 || _rec.bytes[3] & 1 != 0);
+        if !secured && cfg.corrupt_pake3_from == Some(_rec.src) {
+            if let Some(plain) = crate::wire::decode_plain(&_rec.bytes) {
+                if let Some(proto) = crate::wire::decode_proto(&_rec.bytes, &plain, None, 0) {
+                    // Secure channel, PASE Pake3: {1: cA (32 bytes)}
+                    if proto.proto_id == 0 && proto.opcode == 0x24 && proto.payload.len() >= 34 {
+                        let mut b = _rec.bytes.clone();
+                        let i = b.len() - 2 - tape::choose(32) as usize;
+                        b[i] ^= 1 << tape::choose(8);
+                        *self.fired.borrow_mut().entry("corrupt_pake3_confirmation").or_default() += 1;
+                        // Retransmissions of one Pake3 are one failed proof
+                        if !self.seen.iter().any(|(s, b)| *s == usize::MAX - _rec.src && b[..] == plain.ctr.to_le_bytes()[..]) {
+                            self.seen.push((usize::MAX - _rec.src, plain.ctr.to_le_bytes().to_vec()));
+                            *self.fired.borrow_mut().entry("corrupt_pake3_distinct_messages").or_default() += 1;
+                        }
+                        return vec![Fate { delay: lat, bytes: Some(b), redirect: None, spoof_src: None }];
+                    }
+                }
+            }
+        }
         let p_mut = if secured { cfg.mutate_secured_permille } else { cfg.mutate_unsecured_permille };
         if p_mut > 0 && !_rec.bytes.is_empty() && tape::chance(p_mut) {
             let mut b = _rec.bytes.clone();
@@ -287,8 +319,17 @@ pub fn drive_full_with(seed: u64, cfg: FullCfg, step_hook: &mut dyn FnMut(u64, &
     let mut dev_inc = 1u32;
     let mut stop;
     let mut all_done = false;
+    let fine = FINE_PROBE.with(|c| c.take());
     loop {
         let mut step = 100 * MS;
+        if let Some((from, to, fstep)) = fine {
+            let now = kernel::now();
+            if now >= from && now < to {
+                step = fstep;
+            } else if now < from {
+                step = step.min(from - now);
+            }
+        }
         if let Some(t) = crashes.last() {
             step = step.min(t.saturating_sub(kernel::now()).max(1));
         }
